@@ -17,6 +17,7 @@ def c17(run):
     P = run.prog('rel')
     r_file.run(run, P)
     r_file.run_restore_key(run, P)
+    r_file.run_copy_through(run, P)
     run.min_instances('R-FILE-MODE', 14)
     run.min_instances('R-PERSIST', 6)
     run.assumptions = ASSUME_COMMON + ["fopen mode strings are literals (a non-literal mode is counted and not judged)"]
@@ -193,6 +194,8 @@ def c16(run):
     r_lenread.run(run, P)
     r_lenread.run_outcap(run, P)
     r_uriclass.run(run, P)
+    from rules import r_sizefill
+    r_sizefill.run(run, P, units=('coap_uri.c',))
     uri_funcs = set(f['name'] for f in P.lib_funcs() if f['unit'] == 'coap_uri.c')
     r_allocnull.run(run, P, only=uri_funcs)
     run.min_instances('R-LEN-READ', 12)
@@ -237,6 +240,7 @@ def c08(run):
     r_cnt.run_dequeue(run, P)
     r_cnt.run_counted_queued(run, P)
     r_cnt.run_reset_drains(run, P)
+    r_cnt.run_flush_order(run, P)
     from rules import r_ownnode
     r_ownnode.run_queue_key(run, P)       # the node an ACK/RST retires is the one of that session and message id
     run.min_instances('R-CNT-CON', 8)
@@ -258,6 +262,8 @@ def c06(run):
     r_ownnode.run_queue_key(run, P)
     from rules import r_cnt
     r_cnt.run_counted_queued(run, P)     # a counted Confirmable is queued for retransmission (or un-counted): it cannot vanish without an outcome
+    from rules import r_timer
+    r_timer.run(run, P)
     run.min_instances('R-OWN-NODE', 8)
     run.min_instances('R-RETRANS', 2)
     run.assumptions = ASSUME_COMMON + ["timing (T, 2T, 4T; reported wait <= earliest deadline), byte-identical retransmission and behaviour under loss patterns are NOT decided",
@@ -285,6 +291,8 @@ def c10(run):
     r_suppress.run(run, P)
     from rules import r_ownnode
     r_ownnode.run_waitack(run, P)        # a queued Non-confirmable reply is flagged for exactly one (delayed) transmission
+    from rules import r_pairargs
+    r_pairargs.run(run, P)               # the token echoed in a reply is copied with the length of the token it is copied from
     run.min_instances('R-OWN-PDU', 5)
     run.min_instances('R-REPLY-ONCE', 5)
     run.assumptions = ASSUME_COMMON + ["the reply code table over the product of request features is NOT decided (a rule pinning the resp = 4.xx assignments would be a frozen "
@@ -397,6 +405,10 @@ def c02(run):
     r_stalecopy.run(run, P)
     from rules import r_writecap
     r_writecap.run(run, P)
+    from rules import r_sizefill
+    r_sizefill.run(run, P)
+    from rules import r_pairargs
+    r_pairargs.run(run, P)
     run.min_instances('R-RANGE', 12)
     run.min_instances('R-STREAM-CAP', 4)
     run.min_instances('R-PARSE-GATE', 15)
